@@ -1903,6 +1903,11 @@ export class AnyOfDiscriminatedRuntype extends BaseRuntype {
   schema(ctx: SchemaContext): JSONSchema7 {
     if (ctx.mode === "contextual" && ctx.printingContext != null) {
       const variantRefs = this.getSchemaVariantRefs(ctx);
+      // a variant that several discriminator values select is one alternative, not several
+      const alternatives = [...new Set(variantRefs.map(({ ref }) => ref))].map((ref) => ({ $ref: ref }));
+      // a discriminator value admitted by several variants selects their union: the alternatives overlap then
+      // ({ type: "a" | "b" } | { type: "b" | "c" }), and exactly-one-of would reject what two of them accept
+      const disjoint = Object.values(this.schemaMapping).every((it) => this.schemas.includes(it));
 
       return annotateSchema(this.metadata, {
         type: "object",
@@ -1910,8 +1915,7 @@ export class AnyOfDiscriminatedRuntype extends BaseRuntype {
           propertyName: this.discriminator,
           mapping: Object.fromEntries(variantRefs.map(({ key, ref }) => [key, ref])),
         },
-        // a variant that several discriminator values select is one alternative, not several
-        oneOf: [...new Set(variantRefs.map(({ ref }) => ref))].map((ref) => ({ $ref: ref })),
+        ...(disjoint ? { oneOf: alternatives } : { anyOf: alternatives }),
       });
     }
 
